@@ -30,6 +30,9 @@ func lifted(id string) bool {
 	if id == "D1" {
 		return true // repaired in /repo (91b6e7d, df7dcfa, 8b85d8a): compared again
 	}
+	if id == "D17" {
+		return true // repaired in /repo (268f873): nested boxes / several text nodes with overflow-wrap compared again
+	}
 	for _, s := range strings.Split(os.Getenv("C11_LIFT"), ",") {
 		if s == id || s == "all" {
 			return true
